@@ -53,6 +53,13 @@ def parse_check(ctx):
         sp = ctx.harness('sched', prop=pid, **{'in': rp['out']})
         viol += list(sp['violations'])
         extra['gate_replay'] = dict(sp['compared'], schedules=sp['info'].get('schedules', 0))
+    if pid in ('C01', 'C06', 'C08'):
+        # every combination of mandatory metric values of every version, canonical, alone and with optional metrics
+        import json
+        from .objfam import spec_tables
+        sb = ctx.harness('basesweep', prop=pid, aux=json.dumps(spec_tables(ctx)))
+        viol += list(sb['violations'])
+        extra['canonical_base_vectors'] = dict(sb['compared'], vectors=sb['evaluations'])
     if pid in ('C01', 'C18'):
         # every 1-3 letter string that is not an abbreviation of the version (legal set from the spec)
         import json
